@@ -26,6 +26,18 @@ MIN_ORDER_FROZEN = {
 }
 
 
+def stored(m):
+    from ..model import stored_names
+    if isinstance(m, ast.For):
+        return stored_names(m.target)
+    if isinstance(m, ast.Assign):
+        out = set()
+        for t in m.targets:
+            out |= stored_names(t)
+        return out
+    return stored_names(m)
+
+
 def functions_of(ctx, module):
     m = ctx.model.module(module)
     for q, f in m.functions.items():
@@ -102,21 +114,25 @@ def find_splits(ctx, module):
     return out
 
 
-def _loop_of(split):
-    """The ``for`` statement that iterates the compositions."""
+def _loops_of(split):
+    """The ``for`` statements that iterate the compositions."""
     c = split.call
     p = c._parent
     if isinstance(p, ast.For) and p.iter is c:
-        return p
+        return [p]
     st = enclosing_stmt(c)
     if isinstance(st, ast.Assign) and st.value is c and isinstance(st.targets[0], ast.Name):
         name = st.targets[0].id
         scope = enclosing(c, FuncNode)
-        cands = [n for n in ast.walk(scope) if isinstance(n, ast.For) and U(n.iter) == name
-                 and n.lineno > st.lineno]
-        if cands:
-            return min(cands, key=lambda n: n.lineno)
-    return None
+        # the name must not be re-bound: every loop over it sees these compositions
+        rebinds = [n for n in ast.walk(scope) if isinstance(n, ast.Assign) and n is not st
+                   and any(U(t) == name for t in n.targets)]
+        if rebinds and enclosing(c, (ast.For, ast.While)) is None:
+            raise AnalysisError(f"D1: `{name}` is bound more than once")
+        blk = enclosing(c, (ast.For, ast.While)) or scope
+        return sorted([n for n in ast.walk(blk) if isinstance(n, ast.For) and U(n.iter) == name
+                       and n.lineno > st.lineno], key=lambda n: n.lineno)
+    return []
 
 
 def d1(ctx, rule, module, floor):
@@ -140,9 +156,15 @@ def d1(ctx, rule, module, floor):
                       f"{lab}: Taylor term uses gen_term_orders(order={U(sp.order)}, term_length={U(sp.length)})",
                       key=f"{lab} taylor split")
             continue
-        loop = _loop_of(sp)
-        if loop is None:
+        loops = _loops_of(sp)
+        if not loops:
             raise AnalysisError(f"D1: result of `{short(c)}` in {fnq} is not iterated by a for loop")
+        for loop in loops:
+            _d1_loop(ctx, rule, sp, loop, lab, fn, fnq, c)
+
+
+def _d1_loop(ctx, rule, sp, loop, lab, fn, fnq, c):
+        lab = f"{lab}@{U(loop.target)}" if False else lab
         # ---- order provenance
         o = U(sp.order)
         outer_loops = [p for p in parents(loop) if isinstance(p, ast.For)]
@@ -152,6 +174,11 @@ def d1(ctx, rule, module, floor):
                 outer_comps |= {U(e) for e in ol.target.elts}
             else:
                 outer_comps |= {f"{U(ol.target)}[{i}]" for i in range(6)}
+        for ol in outer_loops:
+            for n in ast.walk(ol):
+                if isinstance(n, ast.Assign) and len(n.targets) == 1 and isinstance(n.targets[0], ast.Name) \
+                        and U(n.value) in outer_comps:
+                    outer_comps.add(n.targets[0].id)
         ok = (o == "order" and _own_order_param(enclosing(c, FuncNode) or fn)) or o in outer_comps
         ctx.check(rule, c, ok, f"{lab}: split of `{o}`",
                   f"{lab}: the order that is split, `{o}`, is neither the function's own `order` nor an "
@@ -175,8 +202,23 @@ def _consumption(ctx, rule, sp, loop, comps, lab):
     wrappers = _wrappers(fn)
     tvar = U(loop.target) if isinstance(loop.target, ast.Name) else None
 
+    # local aliases `norm_order = split[0]`
+    alias = {}
+    for n in ast.walk(loop):
+        if isinstance(n, ast.Assign) and len(n.targets) == 1 and isinstance(n.targets[0], ast.Name) \
+                and U(n.value) in comps:
+            others = [m for m in ast.walk(fn) if isinstance(m, (ast.Assign, ast.AugAssign, ast.For))
+                      and m is not n and n.targets[0].id in stored(m)]
+            if not others:
+                alias[n.targets[0].id] = (U(n.value), n)
+
     def comp_of(n):
+        if isinstance(n, ast.Name) and n.id in alias and isinstance(n.ctx, ast.Load):
+            return alias[n.id][0]
         if isinstance(n, (ast.Name, ast.Subscript)) and U(n) in comps:
+            st = enclosing_stmt(n)
+            if any(st is a for _, a in alias.values()):
+                return None  # the aliasing assignment itself is not a use
             # a subscript component `term[0]` contains the Name `term`: only the
             # outermost match counts
             p = n._parent
@@ -235,6 +277,9 @@ def _consumption(ctx, rule, sp, loop, comps, lab):
     for p in paths:
         if p.exit in ("raise",):
             continue
+        neg = [U(t) for t, pol in p.decisions if not pol]
+        if any(t.endswith("== 'bra'") and (t[:-len("'bra'")] + "'ket'") in neg for t in neg):
+            continue  # neither bra nor ket: excluded by validate_input
         counts = {c: 0 for c in comps}
         unknown = []
         for e in p.events:
@@ -633,7 +678,8 @@ def d5_operator(ctx, rule):
         if ("subtract_gs", True) in cs and ("n_create == n_annihilate", True) in cs:
             ok = U(r.value) == "(d - e0, rules)"
             e0 = [a for a in common.assigns_to(fn, "e0")]
-            ok = ok and len(e0) == 1 and U(e0[0].value) == "self.gs.expectation_value(order=order, n_particles=n_create)"
+            ok = ok and len(e0) == 1 and common.call_is(e0[0].value, "self.gs.expectation_value", ["order", "n_particles"],
+                                                   order="order", n_particles="n_create")
             ctx.check(rule, r, ok, "shift by the ground-state expectation value of the same order and rank",
                       "ground-state shift is not d - <0|d|0>^(order) with n_particles=n_create", key="operator shift")
         else:
